@@ -283,6 +283,52 @@ Proof.
   - pose proof (exhausted_all_err_l _ _ E p Hp). congruence.
 Qed.
 
+(* ------------------------------------------------------------------ only Ready=True, dynamic, live pools are used *)
+
+Lemma eligible_usable n : eligible n = true <-> usable n.
+Proof.
+  unfold eligible, usable. destruct n as [p r st del]; simpl. destruct r, st, del; simpl; split; intros H;
+    try discriminate; try (destruct H as (A & B & C); discriminate); auto.
+Qed.
+
+Lemma usable_reflect n : usable_b n = true <-> usable n.
+Proof.
+  unfold usable_b, usable. destruct n as [p r st del]; simpl. destruct r, st, del; simpl; split; intros H;
+    try discriminate; try (destruct H as (A & B & C); discriminate); auto.
+Qed.
+
+(* Whatever the outcomes: the pool that gets the pod is one whose Ready condition is True (not False, Unknown
+   or missing), that is dynamic and not being deleted; and it is preferred only over usable pools it does not
+   lose against. *)
+Lemma ready_pools_only_l (nps : list npool) (out : pool -> outcome) i :
+  add_to_new (map out (scheduler_pools nps)) = Chosen i ->
+  exists n, List.In n nps /\ usable n /\ nth_error (scheduler_pools nps) i = Some (np_pool n) /\ out (np_pool n) = OOk /\
+    forall m, List.In m nps -> usable m -> outranks (np_pool m) (np_pool n) -> out (np_pool m) = OErr.
+Proof.
+  unfold scheduler_pools. intros H. destruct (weight_priority_l _ _ _ H) as (p & Hp & Hin & Hok & Hhi).
+  apply in_map_iff in Hin as (n & <- & Hn). apply filter_In in Hn as [Hn He].
+  exists n. split; [exact Hn|]. split; [apply eligible_usable, He|]. split; [exact Hp|]. split; [exact Hok|].
+  intros m Hm Hu Hr. apply Hhi; [|exact Hr]. apply in_map, filter_In. split; [exact Hm|apply eligible_usable, Hu].
+Qed.
+
+Lemma not_usable_never_in_templates (nps : list npool) p :
+  List.In p (scheduler_pools nps) -> exists n, List.In n nps /\ np_pool n = p /\ usable n.
+Proof.
+  unfold scheduler_pools. intros H. apply (Permutation_in _ (order_by_weight_perm _)) in H.
+  apply in_map_iff in H as (n & <- & Hn). apply filter_In in Hn as [Hn He]. exists n. split; [exact Hn|].
+  split; [reflexivity|apply eligible_usable, He].
+Qed.
+
+Lemma placed_ready_reflect nps name : placed_ready_b nps name = true <-> placed_ready nps name.
+Proof.
+  unfold placed_ready_b, placed_ready. rewrite andb_true_iff, existsb_exists, forallb_forall. split.
+  - intros [(n & Hn & E) H]. split; [exists n; split; [exact Hn|apply String.eqb_eq, E]|].
+    intros m Hm Em. specialize (H m Hm). apply String.eqb_eq in Em. rewrite Em in H. simpl in H. apply usable_reflect, H.
+  - intros [(n & Hn & E) H]. split; [exists n; split; [exact Hn|apply String.eqb_eq, E]|].
+    intros m Hm. destruct (String.eqb_spec (pname (np_pool m)) name) as [Em|]; [|reflexivity]. simpl.
+    apply usable_reflect, H; assumption.
+Qed.
+
 (* ------------------------------------------------------------------ parallelizeUntil: every interleaving *)
 
 Lemma upd_length {A} n (x : A) l : length (upd n x l) = length l.
